@@ -314,7 +314,27 @@ def writersPar : ZapVerif.TransWriters.Par :=
     asWS := fun w => match w with | .list [.int 0, _] => none | _ => some w,
     isLocked := fun w => match w with | .list [.int 2, _] => true | _ => false }
 
+/-- the parameters of the derivation context (harness/cmd/zvh/trans_derive.go): `With(fields)` of a scripted core is
+    `["with", core, fields]`; options are `[0, v]` AddCallerSkip, `[1, _]` Development, `[2, v]` WrapCore(c ↦ ["wrap", c, v]) and
+    the `WrapCore(closure)` of `WithLazy`, whose core is read back as `["lazy", core, fields]`; `Enabled(l)` is `l ≥ 0`;
+    `Check` adds the core; `Write` / `Sync` succeed -/
+def dnm (s : String) : Val := .bytes s.toUTF8.toList
+def derivePar : ZapVerif.TransDerive.Par :=
+  { coreWith := fun c fs => .list [dnm "with", c, fs],
+    applyOpt := fun opt st => match opt with
+      | .list [.int 0, .int v] => { st with callerSkip := match st.callerSkip with | .int n => .int (n + v) | x => x }
+      | .list [.int 1, _] => { st with development := .bool true }
+      | .list [.int 2, v] => { st with core := .list [dnm "wrap", st.core, v] }
+      | .list [.bytes _, .list [_, fields]] => { st with core := .list [dnm "lazy", st.core, fields] }
+      | _ => st,
+    encClone := fun e => .list [dnm "clone", e],
+    addFields := fun e fs => .list [dnm "add", e, fs],
+    cen := fun _ l => decide (l ≥ 0),
+    chk := fun c _ _ => .list [.list [c]],
+    werr := fun _ _ _ => [], serr := fun _ => [] }
+
 def tables : List (String × (Env → Ctx)) := [
+  ("TransDerive", fun _ => ZapVerif.TransDerive.X derivePar),
   ("TransWriters", fun _ => ZapVerif.TransWriters.X writersPar),
   ("TransCtor", fun _ => ZapVerif.TransCtor.X ctorPar),
   ("TransMessage", fun e => ZapVerif.TransMessage.X (messagePar e)),
